@@ -15,11 +15,11 @@ CLAIM = dict(
          "loop (0 | 8 | short | EINTR | error)/wait/return. TLC checks in every reachable state of every (configuration, "
          "fault) pair: argv/envp vectors NULL-terminated, the return point is passed only by the caller and at most once, "
          "Ok implies that no step up to exec failed and the child exec'ed exactly the configured program/argv/env/cwd/"
-         "stdio/ids, Err implies a failed step, carries its positive errno and means that no child exec'ed (ErrMeansNoExec), the child never gets back into the caller's "
+         "stdio/ids, Err implies a step that really failed (an interrupted read of the sync pipe does not count), carries its positive errno and leaves no child of this call running, the child never gets back into the caller's "
          "code, wait/try_wait report the child's status on every call of a sequence (status cache, ECHILD after reaping modelled), nobody blocks forever (deadlock freedom). Quick: all 64 stdio tables on a base "
          "command and on a command using every other setting + 720 configurations of the other dimensions (args, env, cwd, own/foreign uid/gid, pgroup, closures, program present/missing) x 31 fault plans (~470k states per `start` variant); the "
-         "six deviations (child-side `?`, negative execve errno, inverted env test, wait holding the "
-         "child's stdio pipes = deadlock, try_wait not caching the status, EINTR not retried) and two stray-pipe-end deviations of SpawnFlow.tla are re-exhibited by TLC on every run as an anti-vacuity test. Real code: every fault-free configuration and 3 (thorough 24) "
+         "seven deviations (child-side `?`, negative execve errno, inverted env test, wait holding the "
+         "child's stdio pipes = deadlock, try_wait not caching the status, EINTR not retried, EINTR returned at once) and two stray-pipe-end deviations of SpawnFlow.tla are re-exhibited by TLC on every run as an anti-vacuity test. Real code: every fault-free configuration and 3 (thorough 24) "
          "configurations per (fault, predicted outcome) class are executed in four builds - std-linked with `start`, "
          "std-linked without `start`, no-libc executable started by tiny-std's own _start (real Environment::Inherit), "
          "no-libc no-alloc executable using the free function process::spawn::<N> - quick ~6900 runs, thorough ~50000, "
@@ -35,5 +35,5 @@ CLAIM = dict(
          "step after the fork (sync-pipe read, wait4) need not carry an errno; a child that has reported its error and "
          "is about to exit is not 'running the caller's code' (reaping is not demanded). Not reached: "
          "running as a non-root caller (uid/gid settings: own ids and nobody/nogroup as root; refusals injected), signals during spawn, "
-         "two simultaneous failures, aarch64. Descriptor leaks of do_spawn belong to C12. Known findings: Err after an injected hard failure (EIO/EBADF/short) of the sync-pipe read although the child exec'ed (not repairable, not producible without injection).",
+         "two simultaneous failures, aarch64. Descriptor leaks of do_spawn belong to C12.",
 )
